@@ -28,7 +28,20 @@ def diff(a, b, path=''):
     if a != b: return f'{path}: impl {show(a)[:200]} || model {show(b)[:200]}'
     return None
 d = sys.argv[1]; want = sys.argv[2] if len(sys.argv) > 2 else ''; mx = int(sys.argv[3]) if len(sys.argv) > 3 else 5
-kinds = open(f'{d}/kinds.txt').read().split('\n'); impl = open(f'{d}/impl.obs').read().split('\n'); model = open(f'{d}/model.obs').read().split('\n')
+import os, glob
+kinds = open(f'{d}/kinds.txt').read().split('\n'); impl = open(f'{d}/impl.obs').read().split('\n')
+if os.path.exists(f'{d}/model.obs'):
+    model = open(f'{d}/model.obs').read().split('\n')
+else:
+    # per-entry outputs: line k of out_<entry>.txt answers line k of in_<entry>.txt; put them back in case order
+    cases_ = open(f'{d}/cases.txt').read().split('\n')
+    model = [''] * len(cases_)
+    pos = {}
+    for i, c in enumerate(cases_): pos.setdefault(c, []).append(i)
+    for f in glob.glob(f'{d}/out_*.txt'):
+        ins = open(os.path.join(os.path.dirname(f), os.path.basename(f).replace('out_', 'in_'))).read().split('\n'); outs = open(f).read().split('\n')
+        for c, o in zip(ins, outs):
+            for i in pos.get(c, []): model[i] = o
 cases = open(f'{d}/cases.txt').read().split('\n')
 n = 0
 for i, (k, a, m) in enumerate(zip(kinds, impl, model)):
